@@ -36,6 +36,47 @@ def kindof(c):
     return {"arith": "constant", "named": "constant"}.get(c[0], c[0])
 
 
+DW_POOL = ("[Dw entry (pos < 14), Dw raw entry (pos < 10), Dw entry (pos < 6) raw, Dw entry (pos < 6) parent, Dw unit, Dw raw unit, "
+           "Dw entry (pos < 3) attribute, Dw raw entry (pos < 3) attribute, Dw]")
+DW_REL = "(|Dw| %s (|L| [L elem (|A| [L elem (|B| (A B ?lt 1 || A B ?eq 2 || A B ?gt 3 || 0))])]))" % DW_POOL
+DW_TYPES = "(|Dw| [%s elem type])" % DW_POOL
+
+
+def dwarf_values(vd, drv, wd):
+    """DWARF values taken from inputs (DIEs via different routes -- cooked with and without an import path, raw,
+    as somebody's parent --, units, attributes, the Dwarf itself): the recorded relation of all pairs of the pool,
+    computed within one query (one Dwarf value), against the order laws of tla/CmpTrace.tla."""
+    tests = os.path.join(common.REPO, "tests")
+    for f in ("dwz-partial", "a1.out", "twocus", "dwz-partial2-1", "nullptr.o"):
+        fp = os.path.join(tests, f)
+        res = zw.run_driver(drv, ["\t".join(["run", "0", "max=5,t=120", zw.hexq(DW_REL), fp]),
+                                  "\t".join(["run", "1", "max=5,t=120", zw.hexq(DW_TYPES), fp])], wd, tag="dwcmp")
+        r = next((x for x in res if x.get("id") == "0"), None)
+        vd.cov["evaluations"] += 1
+        if not r or r.get("status") != "ok" or len(r["results"]) != 1 or r.get("soft", 0):
+            vd.observe("comparison of DWARF values of %s fails" % f, {"observed": {k: (r or {}).get(k) for k in ("status", "err", "soft", "soft1")}})
+            continue
+        rows = r["results"][0][-1]["v"]
+        n = len(rows)
+        code = {1: -1, 2: 0, 3: 1, 0: 2}
+        mf = os.path.join(wd, "dwmatrix-%s.ndjson" % f)
+        with open(mf, "w") as fh:
+            for i, row in enumerate(rows):
+                for j, c in enumerate(row["v"]):
+                    fh.write(json.dumps({"a": i + 1, "b": j + 1, "r": code[int(c["v"])]}) + "\n")
+        t = tlc.run_tlc("CmpTrace", workers=1, timeout=1500, env={"CMPMATRIX": mf}, heap="8g")
+        m = re.search(r'"CMPALL",\s*\[(.*?)\]', t.out.replace("\n", " "))
+        if not m:
+            raise common.ToolError("CmpTrace failed on the DWARF relation of %s\n%s" % (f, t.out[-2000:]))
+        broken = sorted(re.findall(r"(\w+) \|-> FALSE", m.group(1)))
+        vd.cov["traces_validated_against_impl"] += n * n
+        for law in broken:
+            if law in ("TransEq", "Congruent"):
+                vd.observe("order law %s broken among DIEs reached through different import routes" % law, {"file": f, "pool": DW_POOL})
+            else:
+                vd.observe("order law %s broken among DWARF values of %s" % (law, f), {"file": f, "pool": DW_POOL, "output": t.out[-1500:]})
+
+
 def run(tier):
     vd = common.Verdict(PID, tier)
     wd = common.scratch(PID)
@@ -144,13 +185,16 @@ def run(tier):
                     key = "sequences are not ordered element-wise: [%s] vs [%s]" % (POOL[i][0], POOL[j][0])
                 vd.observe(key, {"a": POOL[i][0], "b": POOL[j][0], "elements": rel[(i, j)], "singletons_lt": lt})
     vd.cov["distinct_nontrivial"] = n * (n - 1)
+    dwarf_values(vd, drv, wd)
     vd.sample({"pool": [p[0] for p in POOL[:12]]})
     return vd.finish(rule="tla/Cmp.tla: the order laws and the documented specifics for a pool of constants (arithmetic, boolean, "
                      "slot type, ELF families with generic sub-domain), strings and nested sequences, for EVERY order of the "
                      "domain objects' addresses (5040 permutations); implementation: all ordered pairs of a %d-value pool "
                      "through the 12 comparison words and 6 infix operators; the recorded three-way relation is checked against "
                      "the laws by TLC (CmpTrace.tla: totality, antisymmetry, reflexivity, transitivity of < and ==, congruence) "
-                     "and against the documented specifics; non-trivial = ordered pairs of distinct values" % n)
+                     "and against the documented specifics; DWARF values (DIEs through different routes: cooked with and without "
+                     "import path, raw, as a parent; units; attributes; the Dwarf) of five sample files, all pairs within one Dwarf "
+                     "value, against the same laws; non-trivial = ordered pairs of distinct values" % n)
 
 
 def replay(path):
